@@ -374,6 +374,11 @@ def run(prog: Program, res: Result, tier: str) -> None:
                 res.bad("R5", m, n, f"{m.name} modifies the cube in place outside the update methods", key=key)
     res.trusted_base += ["np.roll(x, s) is a cyclic permutation of x; rotations compose additively modulo nbins"]
     res.assumptions += ["replace_nan is a documented non-rotation mutation and is outside the property's update sequences"]
+    # ---- R4 (cont.) the step arrays have one entry per index of the axis they are indexed with, also when that axis has length 1:
+    # no unqualified squeeze where the DM steps come from (F34: a one-sub-band cube got a 0-d step array) ----------------------
+    from ..lints import check_no_bare_squeeze
+    check_no_bare_squeeze(prog, res, "R4", ["sigpyproc.params", MOD], "with one sub-band the step array becomes 0-d and `step[isubband]` "
+                          "fails on the second update")
     res.floor("R3", 4)
     res.floor("R2", 5)
     res.floor("R4", 6)
@@ -396,6 +401,10 @@ def _subscripts(t: ast.AST) -> list[str]:
 
 F = "sigpyproc/foldedcube.py"
 MUTANTS = [
+    {"id": "c17-revert-F34", "file": "sigpyproc/params.py", "expect": "C17.R4",
+     "old": "    # Only the DM axis of a scalar DM is dropped: one channel stays a 1D array\n    return delays[0] if scalar_dm else delays\n", "new": "    return delays.squeeze()\n"},
+    {"id": "c17-steps-squeezed-in-getter", "file": F, "expect": "C17.R4",
+     "old": "        delta_dm = newdm - self._ref_dm\n", "new": "        delta_dm = np.squeeze(newdm - self._ref_dm)\n"},
     {"id": "c17-delta-vs-reported-dm", "file": F, "expect": "C17.R",
      "old": "delta_dm = newdm - self._ref_dm", "new": "delta_dm = newdm - self.dm"},
     {"id": "c17-binwidth-from-reported-period", "file": F, "expect": "C17.R2",
